@@ -981,7 +981,16 @@ func ruleC02R10(r *Run) {
 				continue
 			}
 			ek := p.expr(rc)
-			passed := holds(facts, ek, "==", "nil") || holds(facts, "(*testError).isInvalidData("+ek+")", "==", "true") || holdsCallTrue(p, ret.Block(), "(*testError).isInvalidData", rc)
+			// the two ignore exits may be merged under one disjunction (`if err == nil || err.isInvalidData()`): every
+			// way of arriving at the return is then examined by itself
+			passedUnder := func(gs []guard) bool {
+				var fs []rel
+				for _, g := range gs {
+					fs = append(fs, p.relOf(g))
+				}
+				return holds(fs, ek, "==", "nil") || holds(fs, "(*testError).isInvalidData("+ek+")", "==", "true") || guardsHaveCall(p, gs, "(*testError).isInvalidData", rc, true)
+			}
+			passed := holds(facts, ek, "==", "nil") || holds(facts, "(*testError).isInvalidData("+ek+")", "==", "true") || holdsCallTrue(p, ret.Block(), "(*testError).isInvalidData", rc) || p.holdsViaMerges(ret.Block(), passedUnder, 0)
 			if l := innermostLoop(rc); l != nil && l.Body[ret.Block()] {
 				r.Fail("checkFailFile#ignore-after-run", ret.Pos(), "this ignore return lies in the loop that executes the replayed test case: it is reached again in a later iteration, after an execution that failed — a test case that failed when replayed is logged as ignored and, if the random cases pass, Check passes")
 				continue
